@@ -216,7 +216,8 @@ class Register:
 
         context = context or {}
 
-        if idx < 0 or (self.size is not None and idx >= self.size):
+        size = self.size
+        if idx < 0 or (size is not None and idx >= int(size)):
             raise JaqalError("Index out of range.")
         if self.fundamental:
             return (self, idx)
